@@ -21,5 +21,10 @@ def replay(path):
 
 
 def extra(chk, info, res):
+    if info is not None:
+        from vlib import lean
+        lean.check_theorems(chk, "Poupool.Properties.C08", ["Poupool.C08.filtration_timeouts", "Poupool.C08.other_timeouts", "Poupool.C08.filtration_timers"])
+    if res is not None:
+        ac.check_intervals(chk, res, ['Filtration', 'Heating'])
     """C12's module imports C06 for the comfort guard; nothing more here."""
     return None
